@@ -100,9 +100,17 @@ func fillString(r *RNG) string {
 	if r.Intn(60) == 0 {
 		n = 65536 + r.Intn(10)
 	}
+	// upper and lower case, digits and the punctuation principal and realm names carry: strings are octet
+	// strings to the codec, nothing in them is folded or trimmed
+	const alphabet = "ABCDEFGHIJKLMNOPQRSTUVWXYZabcdefghijklmnopqrstuvwxyz0123456789.-/@_ "
 	b := make([]byte, n)
+	upper := r.Intn(3) == 0
 	for i := range b {
-		b[i] = byte('A' + r.Intn(26))
+		if upper {
+			b[i] = byte('A' + r.Intn(26))
+		} else {
+			b[i] = alphabet[r.Intn(len(alphabet))]
+		}
 	}
 	return string(b)
 }
